@@ -1206,6 +1206,7 @@ structure MatInv (M : CSM K) : Prop where
   square : M.major = M.minor
   clean : HiddenClean M
   noZero : NoZero M
+  pos : 1 ≤ M.major
 
 /-- invariant of the store -/
 def StoreInv (s : Store K) : Prop := ∀ p ∈ s, MatInv p.2
@@ -1224,13 +1225,14 @@ theorem StoreInv.erase {s : Store K} (h : StoreInv s) (id : String) :
     StoreInv (Store.erase s id) := fun p hp => h p (mem_erase hp)
 
 theorem MatInv.merge {A B : CSM K} (hA : MatInv A) (hB : MatInv B) : MatInv (A.merge B).1 := by
-  refine ⟨Mx.merge_wfm hA.wfm hA.clean hB.wfm, ?_, Mx.merge_hiddenClean hA.clean B, ?_⟩
+  refine ⟨Mx.merge_wfm hA.wfm hA.clean hB.wfm, ?_, Mx.merge_hiddenClean hA.clean B, ?_, ?_⟩
   · rw [Mx.merge_major, Mx.merge_minor, hA.square, hB.square]
   · intro i e he
     rw [Mx.merge_getD hA.wfm.1 hA.clean hB.wfm.1] at he
     rcases Mg.mem_mergeSpan he with h | h
     · exact hA.noZero i e h
     · exact hB.noZero i e h
+  · rw [Mx.merge_major]; have := hA.pos; omega
 
 /-- a successfully loaded inline matrix with pairwise distinct coordinates satisfies the
     invariant and denotes the listed values -/
@@ -1247,7 +1249,7 @@ theorem MatInv.load {m : IMatrix K} {c : CSM K} (h : loadInlineMatrix m = some c
   rw [h] at l1
   injection l1 with l1
   subst l1
-  exact ⟨⟨l2, l4.trans l5.symm, l3, l7⟩, l4, l6⟩
+  exact ⟨⟨l2, l4.trans l5.symm, l3, l7, by rw [l4]; have := hv.1; omega⟩, l4, l6⟩
 
 /-- with no stored zero, a cell is stored exactly when its dense value is non-zero -/
 theorem stored_iff_ne_zero {M : CSM K} (hw : WFM M) (hnz : NoZero M) (i j : Nat) :
@@ -1259,5 +1261,79 @@ theorem stored_iff_ne_zero {M : CSM K} (hw : WFM M) (hnz : NoZero M) (i j : Nat)
     exact hnz i e he
   · intro h
     exact exists_mem_of_denE_ne_zero h
+
+/-! ### a GET body has pairwise distinct coordinates -/
+
+theorem cellsFrom_nodup {rows : List (Row K)} (hs : ∀ r ∈ rows, Sorted r) (k : Nat) :
+    ((cellsFrom rows k).map fun e => (e.1, e.2.1)).Nodup := by
+  induction rows generalizing k with
+  | nil => simp
+  | cons r rs ih =>
+    rw [cellsFrom_cons, List.map_append, List.nodup_append]
+    refine ⟨?_, ih (fun r' hr' => hs r' (by simp [hr'])) (k + 1), ?_⟩
+    · rw [List.map_map]
+      unfold List.Nodup
+      rw [List.pairwise_map]
+      have := hs r (by simp)
+      refine List.Pairwise.imp ?_ this
+      intro a b hab heq
+      simp only [Function.comp_apply, Prod.mk.injEq] at heq
+      omega
+    · intro a ha b hb hab
+      subst hab
+      simp only [List.map_map, List.mem_map, Function.comp_apply] at ha
+      obtain ⟨e, _, rfl⟩ := ha
+      obtain ⟨⟨i, j, v⟩, hm, heq⟩ := List.mem_map.mp hb
+      have := (mem_cellsFrom.mp hm).1
+      simp only [Prod.mk.injEq] at heq
+      omega
+
+theorem entriesOf_nodup {M : CSM K} (hw : WFM M) :
+    ((entriesOf M).map fun e => (e.1, e.2.1)).Nodup :=
+  cellsFrom_nodup (fun r hr => (hw.2 r hr).1) 0
+
+/-- the GET body of a stored matrix is a valid inline matrix -/
+theorem valid_renderI {M : CSM K} (hw : WFM M) (hsq : M.major = M.minor) (h1 : 1 ≤ M.major) :
+    ValidIMatrix (renderI M) := by
+  refine ⟨by simp only [renderI]; omega, inRange_renderI hw hsq, ?_⟩
+  simp only [renderI, List.map_map]
+  have : ((fun e : Int × Int × K => (e.1, e.2.1)) ∘ fun (x : Nat × Nat × K) =>
+      match x with | (i, j, v) => ((i : Int), (j : Int), v))
+      = (fun q : Nat × Nat => ((q.1 : Int), (q.2 : Int))) ∘ fun e : Nat × Nat × K => (e.1, e.2.1) := by
+    funext ⟨i, j, v⟩; rfl
+  rw [this, ← List.map_map]
+  apply List.Nodup.map _ (entriesOf_nodup hw)
+  intro a b hab
+  simp only [Prod.mk.injEq, Nat.cast_inj] at hab
+  exact Prod.ext hab.1 hab.2
+
+/-! ### exact arithmetic never meets a non-finite delta -/
+
+theorem nonFinite_field (x : K) : nonFinite x = false := by
+  unfold nonFinite
+  simp only [s_le, s_eq, s_add, s_isZero, le_refl, decide_true, Bool.not_true, Bool.false_or,
+    Bool.and_eq_false_iff, decide_eq_false_iff_not, Bool.not_eq_false', decide_eq_true_eq]
+  by_cases hx : x = 0
+  · exact Or.inr hx
+  · left
+    intro h
+    apply hx
+    have := congrArg (· - x) h
+    simpa using this
+
+theorem loopOf_not_nonFinite (fuel : Nat) (c : CSM K) (p : Vec K) (a e : K) (o : ComputeOpts K) :
+    (loopOf fuel c p a e o).2 ≠ .nonFinite := by
+  intro hnf
+  cases hl : loopOf fuel c p a e o with
+  | mk s by_ =>
+    rw [hl] at hnf
+    simp only at hnf
+    subst hnf
+    unfold loopOf at hl
+    have := (loop_spec _ _ _ _ _ _ _ _ _ fuel _ s _ hl).2.2.2.2.2.2.1 rfl
+    have h4 := this.2.2.2.1
+    unfold nonFiniteAt at h4
+    rw [nonFinite_field] at h4
+    cases h4
 
 end EtVerif.OapiL
